@@ -121,6 +121,15 @@ pub fn run_all(args: &Args) {
       }
       out.count("file=path-aliases");
     }
+    // a path named twice (as a command-line file that a configured glob matches as well would be): whatever such a
+    // run reports, it reports it for every order of the arguments — only the order / schedule comparison looks at these
+    let with_duplicate = case_no % 6 == 4 && files.len() >= 2;
+    if with_duplicate {
+      let f = files[crng.below(files.len())].clone();
+      let at = crng.below(files.len() + 1);
+      files.insert(at, f);
+      out.count("file=named-twice");
+    }
     if with_fatal {
       let name = format!("q{}.ts", n);
       std::fs::write(format!("{}/{}", dir, name), FATAL[crng.below(FATAL.len())]).unwrap();
@@ -143,7 +152,7 @@ pub fn run_all(args: &Args) {
     let meta = json!({"dir": dir, "files": files, "extra": extra, "per_file": per_file, "expected_count": expected, "with_fatal": with_fatal});
     let reference = run(BIN, &dir, &sorted, 1, &extra);
     out.eval(&format!("{}", case_no), true, json!({"meta": meta, "stderr_threads1": reference.1.chars().take(400).collect::<String>()}));
-    if !with_fatal {
+    if !with_fatal && !with_duplicate {
       // count and status against the in-process numbers
       let want_status = if expected > 0 { 1 } else { 0 };
       let count_line = if expected > 0 { format!("Found {} problem{}", expected, if expected == 1 { "" } else { "s" }) } else { String::new() };
@@ -172,7 +181,7 @@ pub fn run_all(args: &Args) {
       if !ok {
         out.found("C19", "report-not-in-path-order", &dir, json!({"meta": meta, "stderr": reference.1}));
       }
-    } else if reference.2 != 1 {
+    } else if with_fatal && reference.2 != 1 {
       out.found("C19", "exit-status-wrong", &dir, json!({"meta": meta, "status": reference.2, "expected_status": 1}));
     }
     // schedule / argument-order independence
